@@ -9,6 +9,7 @@ imported by reuse.cli.annotate and reuse.report, reuse.report.uuid4.
 import builtins
 import datetime as _dt
 import errno as _errno
+import fnmatch
 import io
 import os
 import random
@@ -136,7 +137,13 @@ class Sim:
                 self.crash()
 
         for f in self.faults:
-            if f.get("op") != op or f.get("path") != label:
+            if f.get("op") != op:
+                continue
+            if "path_glob" in f:
+                # "whatever file the command writes next to X": the name of a temporary file is not known to the plan
+                if not fnmatch.fnmatchcase(label, f["path_glob"]) or label in (f.get("except") or ()):
+                    continue
+            elif f.get("path") != label:
                 continue
             r = f.get("role")
             if r and not self.role.startswith(r):
@@ -213,13 +220,14 @@ def _rmtree(p):
 class SimFileIO(io.FileIO):
     """The raw layer: a real FileIO whose system-call boundary passes the gate."""
 
-    def __init__(self, sim, label, file, mode="r", closefd=True, opener=None):
+    def __init__(self, sim, label, file, mode="r", closefd=True, opener=None, adopted=False):
         self._sim = sim
         self._label = label
         self._rpos = 0
         self._wpos = 0
         self._writing = any(c in mode for c in "wxa+")
-        sim.gate("open-w" if self._writing else "open-r", label)
+        if not adopted:  # an adopted descriptor passed the gate when os.open created it
+            sim.gate("open-w" if self._writing else "open-r", label)
         super().__init__(file, mode, closefd, opener)
 
     # reads
@@ -289,6 +297,10 @@ def sim_open(file, mode="r", buffering=-1, encoding=None, errors=None,
              newline=None, closefd=True, opener=None):
     sim = SIM
     label = sim.label(file) if sim is not None else None
+    adopted = False
+    if label is None and sim is not None and isinstance(file, int) and file in sim.fd_labels:
+        # os.fdopen / open(fd) on a descriptor that os.open (mkstemp ...) created under a simulated root
+        label, adopted = sim.fd_labels.pop(file)[0], True
     if label is None:
         return _ORIG["open"](file, mode, buffering, encoding, errors, newline, closefd, opener)
     # --- the same stack io.open builds, with SimFileIO as the raw layer -------------
@@ -317,7 +329,7 @@ def sim_open(file, mode="r", buffering=-1, encoding=None, errors=None,
         + (writing and "w" or "") + (appending and "a" or "")
         + (updating and "+" or "")
     )
-    raw = SimFileIO(sim, label, file, rawmode, closefd, opener)
+    raw = SimFileIO(sim, label, file, rawmode, closefd, opener, adopted=adopted)
     result = raw
     try:
         if buffering == 1 and binary:
@@ -655,4 +667,8 @@ def install(cfg):
 
     _rep.uuid4 = fake_uuid4
     random.seed(prf(sim.seed, "random", sim.step))
+    # names of temporary files (tempfile seeds its own generator from the OS): from the plan's seed
+    import tempfile
+    tempfile._Random = lambda: random.Random(prf(sim.seed, "tempfile", sim.step, sim.role))
+    tempfile._name_sequence = None
     return sim
